@@ -230,6 +230,12 @@ pub fn run_c14(sc: &HistSc, st: &mut Stats) -> super::c06::HistOutcome {
             { let mut e = obs.clone(); change_one_deep_leaf(&mut e[j].value, &mut rng); near.push(("one leaf changed inside a nested value", e)); }
             { let mut e = obs.clone(); let mut k = e[j].key.as_str().to_string(); k.push('~'); e[j].key = Key::from(k.as_str()); near.push(("one key changed", e)); }
             {
+                // a key and the same key with one more character of the lowest / highest kind, or one fewer
+                let mut e = obs.clone(); let mut k = e[j].key.as_str().to_string();
+                match rng.below(4) { 0 => k.push('\u{0}'), 1 => k.push('\u{10ffff}'), 2 => { k.push('\u{0}'); k.push('\u{0}'); } _ => { if k.pop().is_none() { k.push('\u{0}'); } } }
+                e[j].key = Key::from(k.as_str()); near.push(("one key extended by U+0000 / U+10FFFF or shortened by one character", e));
+            }
+            {
                 // one key replaced by another key that occurs in the object (if it differs)
                 let other = obs[rng.usize_below(obs.len())].key.clone();
                 if other.as_str() != obs[j].key.as_str() { let mut e = obs.clone(); e[j].key = other; near.push(("one key replaced by another key of the object", e)); }
